@@ -272,3 +272,64 @@ Definition outcome_of (s : state) (c : conn) : option outcome :=
 
 Fixpoint count_system (es : list event) : nat :=
   match es with [] => 0 | e :: r => (if system_event e then 1 else 0) + count_system r end.
+
+(* ---- where the handle goroutine registers with the WaitGroup ----
+
+   [step] above has l.wg.Add(1) inside EArrive: the loop registers the handler before `go
+   l.handle(conn)`.  Whether the source does that is read by tools/l4gen
+   (gen/Shape.v: layer4_listener_wg_add_before_go).  [step2 add_in_loop] follows the fact: with
+   add_in_loop = false the loop only spawns the goroutine (LSpawn) and the goroutine registers
+   itself when it first runs (LRegister), at any later point of the schedule. *)
+
+Inductive levent :=
+| LE (e : event)
+| LSpawn (c : conn) (o : outcome)      (* loop: Accept returned c; go l.handle(c)  -- nothing registered yet *)
+| LRegister (c : conn).                (* handle: l.wg.Add(1) as its first statement *)
+
+Record state2 := mkState2 { base : state; spawned : list (conn * outcome) }.
+
+Definition init2 : state2 := mkState2 init [].
+
+Definition register (s : state) (c : conn) (o : outcome) : state :=
+  mkState (loop s) (upd (hs s) c (Some (HStart o))) (S (wg s)) (chan s) (chan_closed s) (done s) (closed_flag s)
+          ((c, o) :: arrived s) (delivered s) (closedc s) (accept_errs s) (panicked s).
+
+Fixpoint take_spawned (c : conn) (l : list (conn * outcome)) : option (outcome * list (conn * outcome)) :=
+  match l with
+  | [] => None
+  | (x, o) :: r =>
+      if Nat.eqb x c then Some (o, r)
+      else match take_spawned c r with Some (o', r') => Some (o', (x, o) :: r') | None => None end
+  end.
+
+Definition step2 (add_in_loop : bool) (cap : nat) (s : state2) (e : levent) : option state2 :=
+  match e with
+  | LE e0 =>
+      if add_in_loop then
+        match step cap (base s) e0 with Some b => Some (mkState2 b (spawned s)) | None => None end
+      else
+        match e0 with
+        | EArrive _ _ => None
+        | _ => match step cap (base s) e0 with Some b => Some (mkState2 b (spawned s)) | None => None end
+        end
+  | LSpawn c o =>
+      if add_in_loop then None
+      else match loop (base s) with
+           | LAccept =>
+               if closed_flag (base s) || known (base s) c || existsb (fun p => Nat.eqb (fst p) c) (spawned s)
+               then None else Some (mkState2 (base s) ((c, o) :: spawned s))
+           | _ => None
+           end
+  | LRegister c =>
+      if add_in_loop then None
+      else match take_spawned c (spawned s) with
+           | Some (o, r) => Some (mkState2 (register (base s) c o) r)
+           | None => None
+           end
+  end.
+
+Fixpoint run2 (add_in_loop : bool) (cap : nat) (s : state2) (es : list levent) : option state2 :=
+  match es with
+  | [] => Some s
+  | e :: r => match step2 add_in_loop cap s e with Some s' => run2 add_in_loop cap s' r | None => None end
+  end.
